@@ -40,7 +40,9 @@ def main():
                             ignore=shutil.ignore_patterns("__pycache__", "*.db"))
             path = os.path.join(root, m["file"])
             src = open(path).read()
-            if src.count(m["old"]) != 1:
+            if m.get("replace_all") and src.count(m["old"]) >= 1:
+                pass
+            elif src.count(m["old"]) != 1:
                 print("%-40s SKIP: pattern occurs %d times" % (m["id"], src.count(m["old"])))
                 matrix[m["id"]] = {"status": "pattern-mismatch"}
                 continue
